@@ -544,4 +544,50 @@ theorem fftRoute2_eq_spec2 (he : IsChar e) (m n M' N' : Nat) (hm : m ≤ M') (hn
   funext j
   rw [fftRouteFn_eq_spec1 nrm he n N' hn _ l hl]
 
+/-! ## inverse chirp-Z by conjugation -/
+
+/-- the laws of complex conjugation used: a ring involution with `conj (e t) = e (−t)` that fixes `√α` -/
+structure IsConj (cj : K →+* K) (e : R → K) (nrm : R → K) : Prop where
+  e_conj : ∀ t, cj (e t) = e (-t)
+  nrm_conj : ∀ a, cj (nrm a) = nrm a
+  invol : ∀ z, cj (cj z) = z
+
+theorem rd_map (cj : K →+* K) (a : Array K) (i : Nat) : rd (a.map cj) i = cj (rd a i) := by
+  unfold rd
+  by_cases h : i < a.size
+  · simp [Array.getD, h]
+  · simp [Array.getD, h]
+
+theorem rd2_mapArr2 (cj : K →+* K) (a : Array (Array K)) (j i : Nat) :
+    rd2 (mapArr2 cj a) j i = cj (rd2 a j i) := by
+  unfold rd2 mapArr2
+  by_cases h : j < a.size
+  · have : (Array.map (fun r => Array.map (⇑cj) r) a).getD j #[] = (a.getD j #[]).map cj := by
+      simp [Array.getD, h]
+    rw [this, rd_map]
+  · have h1 : (Array.map (fun r => Array.map (⇑cj) r) a).getD j #[] = #[] := by simp [Array.getD, h]
+    have h2 : a.getD j #[] = #[] := by simp [Array.getD, h]
+    rw [h1, h2]
+    simp [rd, Array.getD]
+
+/-- conjugating input and output of the forward triple product gives the inverse triple product -/
+theorem conj_mdft2 (cj : K →+* K) (hc : IsConj cj e nrm) (w0 w1 : AxisWiring) (shp samples : Nat × Nat)
+    (sc0 sc1 a0 a1 : R) (shift : R × R) (f : Nat → Nat → K) (k l : Nat) :
+    cj (mdft2 e nrm w0 w1 shp samples sc0 sc1 a0 a1 shift (fun j i => cj (f j i)) k l)
+      = mdft2 (fun t => e (-t)) nrm w0 w1 shp samples sc0 sc1 a0 a1 shift f k l := by
+  simp only [mdft2, sumTo_eq, map_sum, map_mul, basisEl, hc.e_conj, hc.nrm_conj, hc.invol]
+
+/-- `iczt2 = conj ∘ czt2 ∘ conj` equals `idft2` (the triple product with the reflected kernel), sample for sample -/
+theorem iczt2_eq_inverse_mdft2 (he : IsChar e) (hf : IsFaithful e) (cj : K →+* K) (hc : IsConj cj e nrm)
+    (m n M N K' L : Nat) (αy αx s0 s1 : R)
+    (f : Array (Array K)) (k l : Nat) (hm : 0 < m) (hn : 0 < n) (hk : k < M) (hl : l < N)
+    (hK : m + M ≤ K' + 1) (hL : n + N ≤ L + 1) :
+    rd2 (iczt2 cj e nrm wiringAxis0 wiringAxis1 (cztGlue m M K') (cztGlue n N L) (m, n) (M, N) (K', L) αy αx (s0, s1) f) k l
+      = mdft2 (fun t => e (-t)) nrm wiringAxis0 wiringAxis1 (m, n) (M, N) αy αx αy αx (s0, s1) (rd2 f) k l := by
+  unfold iczt2
+  rw [rd2_mapArr2, czt2_eq_mdft2 nrm he hf m n M N K' L αy αx s0 s1 _ k l hm hn hk hl hK hL]
+  have : rd2 (mapArr2 (⇑cj) f) = fun j i => cj (rd2 f j i) := by
+    funext j i; exact rd2_mapArr2 cj f j i
+  rw [this, conj_mdft2 nrm cj hc]
+
 end C01
